@@ -53,6 +53,24 @@ pub fn run(args: &[&str]) -> String {
     run_ops(&mut wave, args[3], false)
 }
 
+/// `loadseqm <threads> <min_chunk> <sigs> <hdrhex> <bodyhex> <ops>`: like `loadseq`, but the file is parsed by the
+/// multi-threaded VCD loader (rayon pool of `threads`, MIN_CHUNK_SIZE override) so that the store holds several blocks
+pub fn run_mt(args: &[&str]) -> String {
+    let threads = args[0].parse::<usize>().unwrap();
+    let min_chunk = args[1].parse::<usize>().unwrap();
+    let mut file = bytes_of_hex(args[3]);
+    file.extend_from_slice(&bytes_of_hex(args[4]));
+    let path = crate::vcd::tmp_file(&file, "vcd");
+    let opts = LoadOptions { multi_thread: true, remove_scopes_with_empty_name: false };
+    let pool = rayon::ThreadPoolBuilder::new().num_threads(threads).build().unwrap();
+    wellen::verif::verif_set_min_chunk_size(min_chunk);
+    let wave = pool.install(|| simple::read_with_options(&path, &opts));
+    wellen::verif::verif_set_min_chunk_size(0);
+    let _ = std::fs::remove_file(&path);
+    let mut wave = wave.unwrap();
+    pool.install(|| run_ops(&mut wave, args[5], false))
+}
+
 pub fn run_file(args: &[&str]) -> String {
     let mut wave = simple::read(args[0]).unwrap();
     run_ops(&mut wave, args[1], true)
